@@ -909,7 +909,13 @@ fn run_c03(line: &str) -> String {
         let prog = parse_list(args[1].as_list()?, parse_p)?;
         // the three public constructors: `shared()` (the one process-wide instance), `new()`, `Default::default()`
         // (what `emit::setup()` builds) — the latter two must be fresh instances, isolated from each other and from shared
-        let base = [ThreadLocalCtxt::shared(), ThreadLocalCtxt::new(), ThreadLocalCtxt::default()];
+        // … wherever they were created: each of the two fresh instances is made on a thread of its own (as the first
+        // context of that thread) and then used here, next to the other one — `ThreadLocalCtxt` is `Send + Copy`
+        let base = [
+            ThreadLocalCtxt::shared(),
+            std::thread::spawn(ThreadLocalCtxt::new).join().ok()?,
+            std::thread::spawn(ThreadLocalCtxt::default).join().ok()?,
+        ];
         Some(match args[0].as_atom()? {
             "concrete" => run_with::<ThreadLocalCtxt>(base.to_vec(), prog),
             "erased" => run_with::<Dyn>(base.iter().map(|c| Arc::new(*c) as Dyn).collect(), prog),
